@@ -5,12 +5,45 @@ import json, subprocess
 ALL = ["C%02d" % i for i in range(1, 20)]
 
 # id -> (category, technique, level text, level note, design ref)
+PBT = "property-based testing (proptest strategies, 16 seeded shards, shrinking to a minimal replay file)"
+ENUM = "exhaustive enumeration of the bounded input space plus property-based testing (proptest) beyond the bound"
+
 CLAIMED = {
  "C01": ("exploration",
-         "property-based testing (proptest): generated expression trees vs an independent exact BigRational evaluator, shrinking to a minimal query",
+         PBT + ": generated expression trees vs an independent exact BigRational evaluator",
          "Generated expression trees (three generator classes: small literals deep trees, 60-300 digit literals, zero-rich) are evaluated by the tool and by an independent exact evaluator that works on the AST, never on text; value must be equal as a reduced fraction and division by zero must be an error. Exploration is the right level: the input space is unbounded and the oracle is exact.",
          "Trusts num::BigRational arithmetic in the harness and the harness's own renderer (minimal parentheses from the documented precedence table). Exponents are integer by construction and the product of |exponents| per path is capped.",
          "DESIGN.md 4/C01"),
+ "C05": ("exploration",
+         ENUM + ": all 86 definitions vs a hand-written standards table, all 9480 vocabulary words vs an independent segmentation over data.toml names, generated unit expressions vs the stated semantics",
+         "Three complete enumerations (every unit definition against accepted standard scales; every typable [prefix]name word: an accepted reading must be a documented segmentation and both entry points must agree; every bare unit name must denote its own variant) plus generated unit expressions with juxtaposition, blanks, * / ^n compared by a membership search over documented segmentations. The vocabulary is finite, so the first three parts settle it; expressions are sampled.",
+         "Trusts the hand-written standards table (deliberately generous accepted-scale sets) and tools/gen/data.toml as the documentation of names. Words at lexer backtracking positions are excluded from the generated sub-check (known finding), counted in evidence.",
+         "DESIGN.md 4/C05"),
+ "C06": ("exploration",
+         ENUM + ": all operator sequences x tree shapes x 32 parenthesisation/blank layouts vs reference evaluation of the AST",
+         "All operator sequences over + - * / ^ up to length 4 (quick) / 6 (thorough) with every binary tree shape, each rendered 32 ways (minimal, full and redundant parentheses x blank layouts), plus to/round/floor/ceil variants and random deeper trees; every rendering must give exactly the reference value of the AST (or an error iff the reference errors).",
+         "Trusts the harness renderer's blank policy (blanks may only be dropped between plain numbers, parentheses and commas; + - and `to` always spaced) and the reference evaluator.",
+         "DESIGN.md 4/C06"),
+ "C07": ("exploration",
+         ENUM + ": every well-formed literal up to length 6/8 and random literals up to 600 digits vs an independent decimal reader, through four observation points",
+         "Every well-formed literal of length <= 5 (quick) / 6 (thorough) over all digits and <= 6 / 8 over digits 0 1 5 9 is read by str::parse::<Rational>, as a bare query, as left operand and as right operand; all four must equal the independent reader. Random literals with up to 600 digits and exponents up to 999.",
+         "Trusts the harness's decimal reader (15 lines) and BigRational.",
+         "DESIGN.md 4/C07"),
+ "C08": ("exploration",
+         PBT + " plus an exhaustive n/d grid: printed text parsed back and compared with the exact value under the truncation/mark oracle",
+         "Grid of small fractions, random terminating/repeating rationals over 1e-45..1e45 and budget-boundary values built from the spec, crossed with limits 1..20, exponent thresholds 1..15 and continuation on/off; the printed text must parse, carry the right sign, be the value cut toward zero at the last printed digit, and carry the mark iff something non-zero was cut.",
+         "Trusts the 3-line printed-text parser and BigRational comparison; no floating point anywhere.",
+         "DESIGN.md 4/C08"),
+ "C10": ("exploration",
+         PBT + ": boundary-focused arguments vs the mathematical definitions on exact rationals",
+         "floor/ceil/round/round(x,n) on integers, exact halves, values one unit in the last place around integer/half boundaries, random decimals and p/q fractions, with/without unit, n in -6..6, arities 0..4, against div_floor-based definitions; result must keep the argument's unit; wrong arity must be an error.",
+         "Trusts the reference definitions (round = sign*floor(|x|+1/2)) and the observed per-unit factor table for SI normalisation.",
+         "DESIGN.md 4/C10"),
+ "C12": ("exploration",
+         ENUM + ": all strings up to length 4 (quick) / 6 (thorough) over a 40-symbol alphabet; tokens must tile the input and equal the parse tree's leaves",
+         "All 40^k strings for k <= 4 (quick; plus 20^5) or k <= 6 (thorough) and random longer / arbitrary Unicode strings: lexer terminates, tokens non-empty, contiguous, on char boundaries, covering the input; parse_root succeeds and its leaves are exactly the tokens (start, end, kind).",
+         "Uses the doc-hidden public modules anything::syntax::{lexer,parser}; a watchdog turns non-termination into exit 2 (inconclusive) and a token-count limit into a violation.",
+         "DESIGN.md 4/C12"),
 }
 
 PENDING_REASON = "check not built yet in this session (planned with property-based testing per DESIGN.md section 4); not claimed until its machinery is committed"
